@@ -264,7 +264,18 @@ impl<T: ?Sized> RwLock<T> {
             typ,
             self,
         );
+        // If we already hold the read lock, this acquisition must fail with `WouldBlock` so we can diagnose potential
+        // deadlocks. Decide that before touching the semaphore: a permit taken here would never be given back.
+        let reentrant_read =
+            typ == RwLockType::Read && matches!(&state.holder, RwLockHolder::Read(readers) if readers.contains(me));
         drop(state);
+
+        if reentrant_read {
+            // Still a scheduling point, like the `try_acquire` below
+            thread::switch();
+            trace!("failed to acquire {:?} lock on rwlock {:p}", typ, self);
+            return false;
+        }
 
         // Semaphore is never closed, so an error here is always `NoPermits`.
         let mut acquired = self.semaphore.try_acquire(typ.num_permits()).is_ok();
